@@ -110,7 +110,7 @@ def run_cargo_kani(crate_dir, harnesses, extra_flags=(), timeout=3600, jobs=None
             _kani_cmd(extra_flags) + list((per_harness_flags or {}).get(h, [])) + ["--harness", h]
         t1 = time.time()
         try:
-            p = subprocess.run(cmd, cwd=crate_dir, capture_output=True, text=True, env=env, timeout=timeout)
+            p = C.run_group(cmd, cwd=crate_dir, env=env, timeout=timeout)
             out = p.stdout + "\n" + p.stderr
         except subprocess.TimeoutExpired as e:
             out = ((e.stdout or b"").decode() if isinstance(e.stdout, bytes) else (e.stdout or "")) + "\nTIMEOUT after %ds" % timeout
